@@ -374,7 +374,7 @@ func c07Scenario(id string, g c07Cfg, producers, consumers, perProducer int, sho
 
 // back-pressure with a blocking consumer: producers retry on Full until every value is accepted, ONE consumer calls
 // the blocking Take() exactly as many times as there are values. Every Take must return: a Take that has notified the
-// loader and blocks while accepted values sit in the overflow list, with no delivery for 3 s (3000x the loader
+// loader and blocks while accepted values sit in the overflow list, with no delivery for 3 s and 200000 refused Offers meanwhile (logical time; 3000x the loader
 // interval) and the loader parked, is a lost wake-up (nothing-stranded clause).
 func c07BlockingTake(id string, g c07Cfg, producers, perProducer int, seed int64) core.Scenario {
 	return core.Scenario{ID: id, Class: "BufferedChannelQueue", Run: func(c *core.Ctx) {
@@ -384,7 +384,7 @@ func c07BlockingTake(id string, g c07Cfg, producers, perProducer int, seed int64
 		q := c07New(g)
 		total := producers * perProducer
 		rec := hist.NewRecorder(producers + 1)
-		var produced, consumed atomic.Int64
+		var produced, consumed, failedOffers atomic.Int64
 		var stop atomic.Bool
 		var wg sync.WaitGroup
 		for p := 0; p < producers; p++ {
@@ -398,9 +398,11 @@ func c07BlockingTake(id string, g c07Cfg, producers, perProducer int, seed int64
 						err := q.Offer(v)
 						rec.End(p, i, 0, resOf(err))
 						if err == nil {
+							d.Note(fmt.Sprintf("producer%d offer ok", p))
 							produced.Add(1)
 							break
 						}
+						failedOffers.Add(1)
 						runtime.Gosched()
 					}
 				}
@@ -416,12 +418,14 @@ func c07BlockingTake(id string, g c07Cfg, producers, perProducer int, seed int64
 				if err != nil {
 					return
 				}
+				d.Note("consumer take returned")
 				consumed.Add(1)
 			}
 		}()
 		joined := make(chan struct{})
 		go func() { wg.Wait(); close(joined) }()
 		last, lastChange, began := int64(-1), time.Now(), time.Now()
+		failedAtLastChange := int64(0)
 		stranded := false
 	wait:
 		for {
@@ -432,13 +436,33 @@ func c07BlockingTake(id string, g c07Cfg, producers, perProducer int, seed int64
 			}
 			if cur := produced.Load() + consumed.Load(); cur != last {
 				last, lastChange = cur, time.Now()
+				failedAtLastChange = failedOffers.Load()
 			}
+			// The verdict is taken on LOGICAL time (wall time alone says nothing on a loaded machine: the process may simply
+			// not have run). Stranded = no delivery and no acceptance for 3 s AND EITHER the producers were turned away
+			// 200000 times meanwhile (each refusal locks/unlocks the queue and yields the processor, so the loader had that
+			// many chances to run) OR two successive goroutine dumps show no library goroutine that could still act.
 			if time.Since(lastChange) > 3*time.Second {
+				refused := failedOffers.Load() - failedAtLastChange
+				if refused < 200000 {
+					gs1, _ := core.Dump()
+					time.Sleep(300 * time.Millisecond)
+					gs2, _ := core.Dump()
+					if len(core.ActiveRepoGoroutines(gs1)) > 0 || len(core.ActiveRepoGoroutines(gs2)) > 0 || produced.Load()+consumed.Load() != last {
+						continue
+					}
+				}
 				_, dump := core.Dump()
 				held := q.Count()
-				if held > 0 && consumed.Load() < int64(total) {
-					c.Violationf("stranded:blocking-take-never-served", map[string]any{"scenario": id, "config": g.String(), "goroutines": core.RepoGoroutineSummary(dump)},
-						"%s: a blocking Take() waits although %d accepted values are held (accepted=%d delivered=%d); nothing was delivered for 3 s while the producers keep getting ErrQueueIsFull", g, held, produced.Load(), consumed.Load())
+				recent := d.Recent()
+				// diagnosis: one extra wake-up of the loader (GetChannel notifies it). If deliveries resume, a wake-up was lost.
+				beforeKick := consumed.Load()
+				chanLen := len(q.GetChannel())
+				time.Sleep(200 * time.Millisecond)
+				resumed := consumed.Load() > beforeKick
+				if held > 0 && beforeKick < int64(total) {
+					c.Violationf("stranded:blocking-take-never-served", map[string]any{"scenario": id, "config": g.String(), "goroutines": core.RepoGoroutineSummary(dump), "last_events_us": recent, "in_channel": chanLen, "resumed_after_extra_wakeup": resumed},
+						"%s: a blocking Take() waits although %d accepted values are held (accepted=%d delivered=%d); nothing was delivered or accepted for 3 s during which the producers were refused (ErrQueueIsFull) %d times (in the channel: %d; deliveries resumed after one extra loader wake-up: %v)", g, held, produced.Load(), beforeKick, refused, chanLen, resumed)
 					stranded = true
 				} else {
 					c.Inconclusive("no progress in " + id)
@@ -468,8 +492,8 @@ func c07BlockingTake(id string, g c07Cfg, producers, perProducer int, seed int64
 			if hb := c07HeldBound(ops); hb > g.bound() {
 				c.Violationf("bound:more-than-cap+buf-held", map[string]any{"scenario": id}, "%s: at some instant %d accepted values had not been handed out yet (bound %d)", g, hb, g.bound())
 			}
-			q.Close()
 		}
+		core.Catch(q.Close) // (already closed on the no-progress path)
 	}}
 }
 
@@ -628,7 +652,7 @@ func init() {
 			return core.Meta{
 				Level: "exploration",
 				Rule: "configurations (channelCapacity, bufferSizeMaximum, loader interval) in {0,1,2,3} x {0,1,2,5} x {50us,1ms} (quick: 20 of 32) plus 'no limit' buffer sizes {MaxInt, MaxInt32+1, 2^40, MaxInt32, 70000} set through the constructor or SetBufferSizeMaximum; per configuration short concurrent histories (1..3 producers, 1..3 consumers using Poll / TakeWithTimeout / GetChannel receive, <= 24 ops) checked by porcupine against the relaxed bounded FIFO model (FIFO strict, Offer ok only below cap+buf, Full legal only when the overflow can be at its maximum, Empty/Timeout always legal) and long runs (thousands of unique values, 1..4 x 1..4 goroutines, PRNG yields at loader/Offer/Poll hook points) checked for exactly-once / no invention / no loss after a drain / per-producer order / held <= cap+buf at every instant / Count() <= cap+buf / Count() = accepted-delivered at quiescence; " +
-					"the drain uses only Poll/TakeWithTimeout after producers stopped: stranded = items held and >= 4 complete loader passes since the last successful removal, or no library goroutine able to make progress; back-pressure runs (retrying producers against ONE consumer that calls the blocking Take() exactly once per value: a Take left waiting for 3 s while accepted values are held is a lost wake-up); directed scenarios park the loader (in hand, after closed check, before sleep), Poll after its wake-up and Offer before its wake-up; plain ChannelQueue histories (Offer/Poll/PutWithTimeout/TakeWithTimeout) against BoundedFIFO; all repeated in the -race build. distinct_nontrivial = distinct scenarios + distinct hook-trace signatures",
+					"the drain uses only Poll/TakeWithTimeout after producers stopped: stranded = items held and >= 4 complete loader passes since the last successful removal, or no library goroutine able to make progress; back-pressure runs (retrying producers against ONE consumer that calls the blocking Take() exactly once per value: a Take left waiting while accepted values are held, with neither a delivery nor an acceptance for 3 s AND either 200000 refused Offers meanwhile or no library goroutine able to act in two successive dumps, is a lost wake-up - the verdict is taken on logical time, never on wall time alone); directed scenarios park the loader (in hand, after closed check, before sleep), Poll after its wake-up and Offer before its wake-up; plain ChannelQueue histories (Offer/Poll/PutWithTimeout/TakeWithTimeout) against BoundedFIFO; all repeated in the -race build. distinct_nontrivial = distinct scenarios + distinct hook-trace signatures",
 				Assumptions: []string{"Poll->Empty and TakeWithTimeout->Timeout are always legal for the buffered queue (statement: 'nothing immediately available')",
 					"nothing-stranded and linearizability are only claimed for channelCapacity >= 1; for capacity 0 exactly-once, order and conservation are checked",
 					"the race detector is deciding for queue.go frames (baseline silent)"},
